@@ -271,6 +271,9 @@ def gen_case(rng, maxops):
         if null_vals and rng.random() < 0.3:
             v = 0
             tags["null_val_puts"] += 1
+        elif i in ref.m and ref.m[i][1] != 0 and rng.random() < 0.3:
+            v = ref.m[i][1]          # refresh: the very value object already stored under this key
+            tags["same_value_reputs"] = tags.get("same_value_reputs", 0) + 1
         line = f"put {i} {p} {v}"
         r = ref.apply(line.split())
         if r["victim"] is not None:
@@ -319,6 +322,32 @@ def gen_case(rng, maxops):
     return Case(ops, tags)
 
 
+def refresh_case(rng):
+    """re-put of an existing key with the SAME value object: it counts as an insertion / use like any other put (moves to
+    the back, becomes MRU, is not the next victim); then MRU query and overflow"""
+    kind = rng.choice(KINDS)
+    cap = rng.randint(2, 4)
+    kd, vd = rng.choice([0, 1, 1]), rng.choice([0, 1, 1])
+    ops = [f"init {kind} {cap} {kd} {vd} {rng.choice([0, 0, 1])}"]
+    ids = list(range(cap))
+    for n_, i in enumerate(ids):
+        ops.append(f"put {i} 0 {20 + i}")
+    if kind == "lru" and rng.random() < 0.5:
+        ops.append(f"find {rng.choice(ids[1:])}")
+    k = rng.choice(ids[:-1])                      # not the one at the back
+    ops.append(f"put {k} {rng.choice([0, 0, 1])} {20 + k}")     # same value object (same or another key pointer)
+    if kind == "lru":
+        ops += ["getmru", "uselru"]
+    if kind == "lht":
+        ops.append(f"findmv {rng.choice(ids)}")
+    ops.append(f"put {cap} 0 {20 + cap}")          # overflow (caches): the refreshed key must not be the victim unless the policy says so
+    ops += [f"find {k}", f"put {cap + 1} 0 {21 + cap}", f"find {k}"]
+    if kind == "lru":
+        ops.append("getmru")
+    ops.append(rng.choice(["destroy", "clear", f"remove {k}"]))
+    return Case(ops, {"kind": kind, "cap": cap, "refresh": True})
+
+
 def malformed_cases():
     """ops that are not applicable / malformed must be rejected identically by both sides"""
     return [Case(["put 1 0 10"], {"malformed": True}),
@@ -327,7 +356,7 @@ def malformed_cases():
             Case(["init lht 2 1 1 0", "uselru", "getmru", "find", "put 1 0 11"], {"malformed": True})]
 
 
-def exhaustive_cases(kind, cap, depth, kd=1, vd=1, hm=0, nulls=False):
+def exhaustive_cases(kind, cap, depth, kd=1, vd=1, hm=0, nulls=False, samevals=False):
     """every history of `depth` calls over 3 identities, up to renaming of identities (an identity may be mentioned only
     if all smaller ones have been mentioned: first-occurrence order 0,1,2): put (the pointer alternates with the position
     so same-pointer and different-pointer overwrites both occur), find, remove, clear (+ uselru, getmru for lru;
@@ -349,7 +378,10 @@ def exhaustive_cases(kind, cap, depth, kd=1, vd=1, hm=0, nulls=False):
                 ident = NULL_KEY if (nulls and i == 0) else i
                 if name == "put":
                     ptr = 0 if ident == NULL_KEY else (pos // 2) % 2
-                    line = f"put {ident} {ptr} {0 if (nulls and pos % 3 == 1) else 10 + pos}"
+                    value = 0 if (nulls and pos % 3 == 1) else 10 + pos
+                    if samevals:
+                        value = 50 + i            # one value object per identity: every re-put is a refresh with the same object
+                    line = f"put {ident} {ptr} {value}"
                 else:
                     line = f"{name} {ident}"
                 rec(ops + [line], max(used, i + 1), d - 1)
@@ -362,6 +394,7 @@ def exhaustive_cases(kind, cap, depth, kd=1, vd=1, hm=0, nulls=False):
 def gen_cases(rng, tier):
     cases = malformed_cases()
     cases += [gen_case(rng, 40) for _ in range(4000 if tier == "quick" else 40000)]
+    cases += [refresh_case(rng) for _ in range(600 if tier == "quick" else 6000)]
     if tier == "quick":
         for kind in ("fifo", "lifo", "lru"):
             cases += exhaustive_cases(kind, 2, 4 if kind == "lru" else 5, hm=rng.choice([0, 1]))
@@ -370,6 +403,8 @@ def gen_cases(rng, tier):
             cases += exhaustive_cases(kind, 1, 3, nulls=True, kd=rng.choice([0, 1]))
         cases += exhaustive_cases("lht", 2, 4)
         cases += exhaustive_cases("lht", 2, 3, nulls=True)
+        for kind in KINDS:
+            cases += exhaustive_cases(kind, 2, 4, samevals=True)
         for kind in KINDS:          # library string hashes: identities 0,1,2 = texts of 11,12,13 bytes, all alignments
             cases += exhaustive_cases(kind, 2, 3, hm=4)
             cases += exhaustive_cases(kind, 3, 3, hm=5)
@@ -383,6 +418,9 @@ def gen_cases(rng, tier):
             cases += exhaustive_cases(kind, 3, 4, nulls=True, vd=rng.choice([0, 1]))
         cases += exhaustive_cases("lht", 2, 5)
         cases += exhaustive_cases("lht", 2, 4, nulls=True)
+        for kind in KINDS:
+            cases += exhaustive_cases(kind, 2, 5, samevals=True)
+            cases += exhaustive_cases(kind, 3, 4, samevals=True, vd=0)
         for kind in KINDS:
             cases += exhaustive_cases(kind, 2, 4, hm=4)
             cases += exhaustive_cases(kind, 3, 4, hm=5)
